@@ -49,14 +49,16 @@ def run_tests(tree):
     return tail
 
 
-def cmd_import(src, prop):
+def cmd_import(src, prop, offset=0):
     out = os.path.join(src, 'out')
     n = 0
     for k in (1, 2, 3, 4):
         diff = os.path.join(out, 'change%d.diff' % k)
         if not os.path.exists(diff):
             continue
-        sid = '%s-%d' % (prop, k)
+        sid = '%s-%d' % (prop, k + offset)
+        if os.path.exists(os.path.join(SEEDED, sid)):
+            raise SystemExit('%s exists: choose another offset' % sid)
         d = os.path.join(SEEDED, sid)
         os.makedirs(d, exist_ok=True)
         shutil.copy(diff, os.path.join(d, 'patch.diff'))
@@ -133,7 +135,7 @@ def cmd_run(sid, checks=None, tier='quick'):
 
 def main(argv):
     if argv[0] == 'import':
-        cmd_import(argv[1], argv[2])
+        cmd_import(argv[1], argv[2], int(argv[3]) if len(argv) > 3 else 0)
     elif argv[0] == 'verify':
         for sid in argv[1:]:
             cmd_verify(sid)
